@@ -1,0 +1,20 @@
+//go:build verif
+
+package attachment
+
+import (
+	"net"
+
+	"github.com/cuteLittleDevil/go-jt808/shared/consts"
+)
+
+// VerifServe runs the real per-connection loop on a caller-supplied net.Conn
+// (verification builds only: an in-memory conn gives exact read sizes and close points).
+func VerifServe(conn net.Conn, activeSafetyType consts.ActiveSafetyType, fileEventer FileEventer) {
+	newConnection(conn, activeSafetyType, nil, fileEventer).run()
+}
+
+// VerifDefaultFileEventer returns the default file handler (writes ./<phone>/<name>).
+func VerifDefaultFileEventer() FileEventer {
+	return newFileEvent()
+}
